@@ -19,8 +19,8 @@ ASSUMPTIONS = ["text lines are ASCII (non-ASCII input is Unmodelled and counted,
                "(the raw text kept for diagnostics and the time stamp are not compared)"]
 
 
-TRUSTED = list(TRUSTED) + list(E2E.TRUSTED)
-ASSUMPTIONS = list(ASSUMPTIONS) + list(E2E.ASSUMPTIONS)
+TRUSTED = list(TRUSTED) + list(getattr(E2E, "TRUSTED", []))      # e2e imports this module: may be mid-import
+ASSUMPTIONS = list(ASSUMPTIONS) + list(getattr(E2E, "ASSUMPTIONS", []))
 
 
 def gen(ctx):
